@@ -680,6 +680,25 @@ Theorem C04_svd_decompress_result_valid : forall (F : Type) (Op : fops F) (close
 Proof. exact @svd_decompress_api_accepts. Qed.
 Print Assumptions C04_svd_decompress_result_valid.
 
+(* end to end at the level of the returned OBJECT: constructor verdict included, slice i of the result is loading_i x slice i *)
+Theorem C04_svd_decompress_object_entry : forall (F : Type) (Op : fops F) (close : F -> F -> bool),
+  ring_theory (f0 Op) (f1 Op) (fadd Op) (fmul Op) (fsub Op) (fopp Op) (@eq F) ->
+  forall (x : pf2_operand) Ls A B C,
+  pf2_fs x = [A; B; C] ->
+  pf2_validb Op close (pf2_raw_w x) (pf2_fs x) (pf2_ps x) = true ->
+  length (pf2_ps x) <= length Ls -> length B <= ncols A ->
+  (forall i Lm, i < length (pf2_ps x) -> nth i Ls None = Some Lm -> Lm <> [] /\ ortho Op (length (nth i (pf2_ps x) [])) Lm) ->
+  exists o, svd_decompress_api Op close x Ls = Ok o /\ pfo_fs o = [A; B; C] /\
+    forall i j k, i < length (pf2_ps x) ->
+      match nth i Ls None with
+      | None => pf2_entry Op (pfo_w o) A B C (pfo_ps o) i j k = pf2_entry Op (pfo_w o) A B C (pf2_ps x) i j k
+      | Some Lm => j < length Lm ->
+          pf2_entry Op (pfo_w o) A B C (pfo_ps o) i j k =
+          sumn Op (length (nth i (pf2_ps x) [])) (fun t => fmul Op (mget Op Lm j t) (pf2_entry Op (pfo_w o) A B C (pf2_ps x) i t k))
+      end.
+Proof. exact @svd_decompress_api_entry. Qed.
+Print Assumptions C04_svd_decompress_object_entry.
+
 Theorem C04_parafac2_normalise_result_valid : forall (F : Type) (Op : fops F) (close : F -> F -> bool) tape (x : pf2_operand),
   pf2_validb Op close (pf2_raw_w x) (pf2_fs x) (pf2_ps x) = true ->
   length tape = 3 -> Forall (fun sc => length sc = cp_rank (pf2_fs x)) tape ->
@@ -745,6 +764,17 @@ Theorem C04_cp_mode_dot_inplace_value_partial : forall (F : Type) (Op : fops F) 
 Proof. exact @cp_mode_dot_h_inplace_value. Qed.
 Print Assumptions C04_cp_mode_dot_inplace_value_partial.
 
+(* the REPAIRED tree (candidate patch: the product goes to a fresh array; the harness reads off the current source which variant
+   applies): copy=False reads as the pure model's answer whatever the aliasing, and no array is ever overwritten *)
+Theorem C04_cp_mode_dot_repaired_value : forall (F : Type) (Op : fops F) (h : heap) r x mode kd h' o,
+  wf_ref h r -> cp_mode_dot_h_fresh Op h r false x mode kd = Ok (h', o) ->
+  (exists a, h_arr h' = h_arr h ++ a) /\
+  exists w' fs', cp_mode_dot Op (operand_w Op (deref h r)) (operand_fs (deref h r)) x mode kd = Ok (w', fs') /\
+     cpo_fs (read_obj h' o) = fs' /\ cpo_shape (read_obj h' o) = cp_shape fs' /\
+     cpo_w (read_obj h' o) = match ref_w h r with Some _ => w' | None => ones Op (cp_rank fs') end.
+Proof. exact @cp_mode_dot_h_fresh_value. Qed.
+Print Assumptions C04_cp_mode_dot_repaired_value.
+
 (* an in-place update of one location reads back as an update of one slot when no other slot names that location *)
 Theorem C04_inplace_update_unique_slot : forall (B : Type) (d : B) (tbl : list B) v (ls : list nat) m,
   m < length ls -> nth m ls 0 < length tbl ->
@@ -768,12 +798,15 @@ Example C04_round5_nonvacuous :
   tucker_new (mk [2] [1; 2]%Z) [[[1; 0]; [1; 1]]%Z] = Err /\
   (exists h' o, cp_mode_dot_h Zops alias_heap (RTuple (Some 0) 0) true (OpVec [1; 2]%Z) 2 false = Ok (h', o) /\
                 cp_entry Zops (cpo_w (read_obj h' o)) (cpo_fs (read_obj h' o)) [0; 0] = 49%Z /\ o = 0 /\ owned h' o = [6; 3; 4]) /\
+  (exists h' o, cp_mode_dot_h_fresh Zops alias_heap (RTuple (Some 0) 0) false (OpVec [1; 2]%Z) 2 false = Ok (h', o) /\
+                cp_entry Zops (cpo_w (read_obj h' o)) (cpo_fs (read_obj h' o)) [0; 0] = 49%Z /\ arr h' 1 = [[1; 2]; [3; 4]]%Z) /\
   (let h := mk_heap [[[1; 1]]; [[1; 2]; [3; 4]]; [[1; 2]; [3; 4]]; [[1; 1]; [2; 5]]]%Z [[1; 2; 3]] [] in
    exists h' o, cp_mode_dot_h Zops h (RTuple (Some 0) 0) false (OpVec [1; 2]%Z) 2 false = Ok (h', o) /\
                 cp_entry Zops (cpo_w (read_obj h' o)) (cpo_fs (read_obj h' o)) [0; 0] = 49%Z /\
                 arr h' 2 = [[5; 22]; [15; 44]]%Z /\ owned h' o = [0; 1; 2]).
 Proof.
-  cbv zeta. repeat (split; [vm_compute; reflexivity|]). split.
+  cbv zeta. repeat (split; [vm_compute; reflexivity|]). split; [|split].
+  - do 2 eexists. split; [vm_compute; reflexivity|]. repeat split; vm_compute; reflexivity.
   - do 2 eexists. split; [vm_compute; reflexivity|]. repeat split; vm_compute; reflexivity.
   - do 2 eexists. split; [vm_compute; reflexivity|]. repeat split; vm_compute; reflexivity.
 Qed.
